@@ -85,6 +85,8 @@ func srvScriptCoq(cs srvConn) string {
 			acts = append(acts, "CHalf")
 		case "shutdown":
 			acts = append(acts, "CShutdown")
+		case "grace":
+			acts = append(acts, "CTimer")
 		}
 	}
 	if !closed {
@@ -210,6 +212,14 @@ func c08Oracle(c *h.Ctx, sc srvScenario, r srvResult, caseJSON any, prop string)
 	if !r.ProbeOK {
 		c.Fail(prop+"/stops-serving", "a fresh connection was not served after the scenario", caseJSON)
 	}
+	anyShutdown := false
+	for _, cs := range sc.Conns {
+		for _, st := range cs.Steps {
+			if st.Op == "shutdown" {
+				anyShutdown = true
+			}
+		}
+	}
 	for i, cs := range sc.Conns {
 		if i >= len(r.Conns) {
 			break
@@ -218,7 +228,7 @@ func c08Oracle(c *h.Ctx, sc srvScenario, r srvResult, caseJSON any, prop string)
 		// walk the script: what has been sent when each read happens, and whether the connection is still live
 		var sent []srvSent
 		var pend *srvSent
-		live := cs.TLS != "fail" && !cs.HookFail
+		live := cs.TLS != "fail" && !cs.HookFail && !(anyShutdown && len(sc.Conns) > 1)
 		fatalAt := -1 // index in sent of the first undecodable message
 		gi := 0       // next observation
 		answered := 0
